@@ -203,10 +203,17 @@ Walk1(C, s, st) ==
                       a == Put(Put(Put(st, "var " \o w \o " = true"), "while " \o w \o " {"), w \o " = false")
                   IN Pop(Put(WalkS(C, s.body, letFirst(Push(a, EmptyScope))), "}"))
              [] s.kind = "for" ->
+                  \* the iterable is outside the loop variable's scope: where the binder's name already denotes a local
+                  \* (a lambda) every other loop iterates over `[b]` - the b of the header is the outer one, and the loop
+                  \* variable carries that binding's label
                   LET r == "r" \o ln
-                      a == Put(Put(st, "let " \o r \o ": array<int -> void> = [" \o Lam(label) \o "]"),
-                               "for " \o pat \o " in " \o r \o " {")
-                      b == Pop(Put(WalkS(C, s.body, Push(a, patScope)), "}"))
+                      outer == IF s.b = "" THEN Other("unres") ELSE Resolve(C, st.env, s.b)
+                      self == outer.t = "local" /\ ~Tainted(st.env, s.b) /\ Len(st.lines) % 2 = 0
+                      a == IF self THEN Put(st, "for " \o s.b \o " in [" \o s.b \o "] {")
+                           ELSE Put(Put(st, "let " \o r \o ": array<int -> void> = [" \o Lam(label) \o "]"),
+                                    "for " \o pat \o " in " \o r \o " {")
+                      sc == IF self THEN [bind |-> (s.b :> outer.name), taint |-> {}] ELSE patScope
+                      b == Pop(Put(WalkS(C, s.body, Push(IF self THEN Tag(a, "for-self") ELSE a, sc)), "}"))
                       k == Len(b.env)
                   IN IF s.b = "" THEN b ELSE [b EXCEPT !.env[k].taint = @ \cup {s.b}]
              [] s.kind = "match" ->
